@@ -6,6 +6,7 @@ repetition, recompilation after cache_clear(), and two graph=True requests (the 
 cache_clear()) must agree. Across processes: the per-case outcome digests must agree.
 """
 import hashlib
+import math
 import random
 
 import numpy as np
@@ -15,7 +16,7 @@ LEVEL = "exploration"
 HASHSEED = "varied"
 RULE = (
     "a corpus of G cases (all families; update ops with forced duplicate coordinates and several vectorised axes; implicit element-wise outputs; flatten groups eligible for CSE; "
-    "solver inputs that are under- or over-determined; calls that are ill-formed in several ways at once, e.g. a negative and a non-integral keyword size) is executed under PYTHONHASHSEED in {0,1,2,3,17,4242,12345,random}; per case: value digest (bit-exact for integer/bool data and "
+    "solver inputs that are under- or over-determined; C02's random systems of expressions through solve_axes / solve_shapes / matches; calls that are ill-formed in several ways at once, e.g. a negative and a non-integral keyword size) is executed under PYTHONHASHSEED in {0,1,2,3,17,4242,12345,random}; per case: value digest (bit-exact for integer/bool data and "
     "data-moving ops, rounded to 1e-6 relative otherwise) or exception class, for the first call, a repetition and a recompilation; text of two graph=True requests; "
     "distinct by case; non-trivial if the case has duplicates, an implicit output, or >= 2 tensors"
 )
@@ -30,7 +31,7 @@ def shards(tier, seed, scale):
     out = []
     for h in range(halves):
         for hs in SEEDS:
-            out.append({"n": n, "half": h, "hashseed": hs, "corpus_seed": seed * 7919 + h, "seed": seed * 7919 + h, "maxlen": 4})
+            out.append({"n": n, "nsys": int((200 if tier == "quick" else 600) * scale), "half": h, "hashseed": hs, "corpus_seed": seed * 7919 + h, "seed": seed * 7919 + h, "maxlen": 4})
     return out
 
 
@@ -190,6 +191,63 @@ def run(spec, out):
         else:
             out.count("graph_texts_agree")
         digests.append([d1, g1])
+    # ---- solver systems (C02's generator): outcome of solve_axes / solve_shapes / matches per system; these reach the symbolic solver,
+    # whose result must not depend on set iteration order or object addresses
+    import signal
+    from .c02 import gen_system, CaseTimeout, _alarm
+    from ..gen.expr import pr, expand, xleaves, xshape, walk, Num
+    signal.signal(signal.SIGALRM, _alarm)
+    srng = random.Random(spec["corpus_seed"] * 31 + 5)
+    for k in range(spec.get("nsys", 0)):
+        exprs, truth, ell, sugared = gen_system(srng)
+        reps = {g: len(truth[n]) for n, g in ell.items()}
+        try:
+            xex = [expand(e, reps) for e in exprs]
+        except KeyError:
+            continue
+        sizes = {}
+        uid2val = {n.uid: n.value for e in exprs for n in walk(e) if isinstance(n, Num)}
+        for e in xex:
+            for l in xleaves(e):
+                if l.isnum:
+                    sizes[l.name] = uid2val[l.tname]
+                else:
+                    idx = [int(t) for t in l.name[len(l.tname):].split(".") if t]
+                    sizes[l.name] = truth[l.tname][idx[-1]] if idx else truth[l.tname][0]
+        shapes = [tuple(xshape(e, sizes)) for e in xex]
+        if any(math.prod(sh) > 2**40 for sh in shapes):
+            continue
+        used = sorted({n.name for e in exprs for n in walk(e) if hasattr(n, "name")})
+        kwargs = {n: (truth[n][0] if n not in ell else tuple(truth[n])) for n in used if srng.random() < 0.25 and len(truth[n]) > 0}
+        if srng.random() < 0.3 and shapes:
+            a = srng.randrange(len(shapes))
+            if shapes[a]:
+                b_ = srng.randrange(len(shapes[a]))
+                sh = list(shapes[a]); sh[b_] = max(1, sh[b_] + srng.choice([-1, 1])); shapes[a] = tuple(sh)
+        desc = sugared if sugared is not None else ", ".join(pr(e) for e in exprs)
+        tensors = [np.broadcast_to(np.zeros((), dtype=np.int8), sh) for sh in shapes]
+        corpus.append(hashlib.sha1(repr((desc, shapes, sorted(kwargs.items()))).encode()).hexdigest()[:10])
+        res = []
+        out.evaluation()
+        out.count("solver_systems")
+        for api in ("solve_axes", "solve_shapes", "matches"):
+            signal.alarm(30)
+            try:
+                r = getattr(einx, api)(desc, *tensors, **kwargs)
+                if isinstance(r, dict):
+                    r = sorted((kk, np.asarray(vv).tolist()) for kk, vv in r.items())
+                res.append("R:" + repr(r)[:200])
+            except CaseTimeout:
+                res.append("T:timeout")
+            except Exception as e:  # noqa
+                res.append("E:" + type(e).__name__)
+            finally:
+                signal.alarm(0)
+        if not any(r.startswith("T:") for r in res):
+            out.distinct_key(f"system|{desc}|{shapes}")
+        digests.append(["SYS|" + "|".join(res), "E:n/a"])
+        if k < 1:
+            out.sample({"system": desc, "shapes": [list(sh) for sh in shapes], "kwargs": {kk: repr(vv) for kk, vv in kwargs.items()}, "outcomes": res, "hashseed": spec["hashseed"]})
     out.info("digests", {"half": spec["half"], "hashseed": str(spec["hashseed"]), "corpus": corpus, "digests": digests})
 
 
@@ -212,8 +270,13 @@ def finalize(agg, tier, seed):
                 continue
             for k, (a, b) in enumerate(zip(ref["digests"], other["digests"])):
                 compared += 1
+                if "T:timeout" in a[0] or "T:timeout" in b[0]:
+                    agg.counters["comparisons_skipped_timeout"] += 1
+                    continue
                 if a[0] != b[0]:
                     kind = "exception-class-flips" if (a[0].startswith("E:") or b[0].startswith("E:")) else "value-differs"
+                    if a[0].startswith("SYS|"):
+                        kind = "solver-outcome-differs"
                     agg.violations.append({"t": "violation", "mech": {"kind": f"hashseed-{kind}"}, "witness": {"half": half, "case_index": k, "hashseed_a": seeds[0], "hashseed_b": s, "a": a[0], "b": b[0], "corpus_id": ref["corpus"][k]},
                                            "desc": f"corpus case {half}/{k}: outcome {a[0]} under PYTHONHASHSEED={seeds[0]} but {b[0]} under PYTHONHASHSEED={s}"})
                 elif a[1] != b[1] and not a[1].startswith("E:"):
